@@ -363,6 +363,7 @@ func worldC06(w *World) {
 		size   int
 		status int
 		slow   bool
+		delay  time.Duration
 	}
 	var reqs []*breq
 	var ids []string
@@ -383,9 +384,12 @@ func worldC06(w *World) {
 		}
 		r.status = []int{200, 201, 404, 500}[t.Choice(4, "status")]
 		r.slow = t.Rare(1, 3, "slowbackend")
+		// the backend may take its time before it answers at all (every upload attempt
+		// may have failed by then)
+		r.delay = []time.Duration{0, 0, 0, 2 * time.Second, 20 * time.Second}[t.Choice(5, "backenddelay")]
 		reqs = append(reqs, r)
 		ids = append(ids, r.id)
-		rp.reqs[r.id] = serialiseRequest("GET", "/u/"+r.id, "example.test", http.Header{"X-Token": {r.id}, "X-Size": {strconv.Itoa(r.size)}, "X-Status": {strconv.Itoa(r.status)}, "X-Slow": {strconv.FormatBool(r.slow)}}, nil)
+		rp.reqs[r.id] = serialiseRequest("GET", "/u/"+r.id, "example.test", http.Header{"X-Token": {r.id}, "X-Size": {strconv.Itoa(r.size)}, "X-Status": {strconv.Itoa(r.status)}, "X-Slow": {strconv.FormatBool(r.slow)}, "X-Delay-Ms": {strconv.Itoa(int(r.delay / time.Millisecond))}}, nil)
 		if !faultFree {
 			nf := t.Range(1, 3, "nfaults")
 			for a := 0; a < nf; a++ {
@@ -428,6 +432,10 @@ func worldC06(w *World) {
 			size, _ := strconv.Atoi(r.Header.Get("X-Size"))
 			st, _ := strconv.Atoi(r.Header.Get("X-Status"))
 			slow := r.Header.Get("X-Slow") == "true"
+			if ms, _ := strconv.Atoi(r.Header.Get("X-Delay-Ms")); ms > 0 {
+				time.Sleep(time.Duration(ms) * time.Millisecond)
+				w.Probe("backend_answers_late")
+			}
 			rw.Header().Set("X-Echo-Token", tok)
 			rw.Header().Set("Content-Type", "application/octet-stream")
 			rw.WriteHeader(st)
